@@ -8,6 +8,7 @@ use crate::util::*;
 use charset_normalizer_rs::entity::CharsetMatches;
 
 pub mod c01;
+pub mod c02;
 pub mod c03;
 pub mod c04;
 pub mod c05;
@@ -145,6 +146,7 @@ pub fn custom_by_id(id: &str) -> Option<CustomRun> {
 pub fn by_id(id: &str) -> Option<Box<dyn DetectProp>> {
     match id {
         "C01" => Some(Box::new(c01::C01)),
+        "C02" => Some(Box::new(c02::C02)),
         "C04" => Some(Box::new(c04::C04)),
         "C05" => Some(Box::new(c05::C05)),
         "C07" => Some(Box::new(c07::C07)),
